@@ -21,6 +21,9 @@ What is NOT proved (rests on the judge of harness/checks/C02.py over the targete
 import CalmVerif.Proofs.RoundTripFuel
 import CalmVerif.Proofs.RoundTripSafeMin0
 import CalmVerif.Proofs.RoundTripSafeMin1
+import CalmVerif.Proofs.RoundTripSepMin0
+import CalmVerif.Proofs.RoundTripSepMin1
+import CalmVerif.Proofs.RoundTripPairs
 namespace CalmVerif.Props.C02
 open CalmVerif CalmVerif.Unparse CalmVerif.TokenAdj
 
@@ -202,13 +205,13 @@ typing is a string of the root kind's certificate over the follow relation `foll
 line-continuation stripping keeps the class `str`: `sig_dropLineCont`) -/
 theorem minify0_stream_typed (k : String) (as : List (String × Val)) (hw : wfVal cxMin0 (.node k as) = true)
     (cs : List Chunk) (h : walkChunks (minifyCfg false) (.node k as) () = .ok (cs, ())) :
-    ∃ a, certOf cxMin0 k = some a ∧ InLang followMin0 a (syms (minifyCfg false).hd cs) :=
+    ∃ a, certOf cxMin0 k = some a ∧ Ann (minifyCfg false).hd followMin0 a cs :=
   walkChunks_typed (minifyTyped false certMin0) followMin0 followMin0_closed k as hw () cs () h
 
 /-- the same with drop_semi -/
 theorem minify1_stream_typed (k : String) (as : List (String × Val)) (hw : wfVal cxMin1 (.node k as) = true)
     (cs : List Chunk) (h : walkChunks (minifyCfg true) (.node k as) () = .ok (cs, ())) :
-    ∃ a, certOf cxMin1 k = some a ∧ InLang followMin1 a (syms (minifyCfg true).hd cs) :=
+    ∃ a, certOf cxMin1 k = some a ∧ Ann (minifyCfg true).hd followMin1 a cs :=
   walkChunks_typed (minifyTyped true certMin1) followMin1 followMin1_closed k as hw () cs () h
 
 /-- (4)+(5), table level, partial: every two tokens either minifier can print with NO layout marker between them are
@@ -221,5 +224,71 @@ theorem direct_adjacent_safe_minify_partial : directOK followMin0 = true ∧ dir
 /-- non-vacuity: the witnesses respect the slot typing -/
 example : wfVal cxMin1 kf02b = true ∧ wfVal cxMin1 kf02d = true ∧ wfVal cxMin1 okPlus = true ∧ wfVal cxMin1 okFor = true := by
   decide +kernel
+
+/-! ### token pairs separated by one layout marker; the lifted statements -/
+
+/-- D `separated_pairs_safe_minify` (partial: runs of exactly ONE layout marker).  For every occurrence `x` of a `Space`
+or `OptionalSpace` rule (`layout_handler_space_minimum`) and all token signatures `a`, `b` such that `a · x · b` can occur
+in a chunk stream of the minifier: `required_space` certainly matches on the edge characters (`mustSpace`: a space is
+printed), or the pair is `directSafe`, or it is one of the recorded findings
+  KF-02b  a regular expression literal before a word (`/re/ in b` → `/re/in b`),
+  KF-02c  an identifier ending in an identifier character outside Python's `\w` before a word (`à in b`),
+  KF-02f  a number ending in `.` before a word (`1. in b`),
+(KF-01 and the two artefacts of `okPair` included).  `RequiredSpace` always prints; no other marker of the minify rule
+sets can print nothing between two token fragments.  NOT covered: runs of several markers and runs containing
+OpenBlock / CloseBlock / EndStatement — KF-02e (`a;{}` → `a{}`) lives there; it is not a lexical finding: `a` `{` lex
+apart, the statement boundary is what is lost. -/
+theorem separated_pairs_safe_minify_partial :
+    sepOKMin Gen.Rules.rs_minify0 followMin0 = true ∧ sepOKMin Gen.Rules.rs_minify1 followMin1 = true :=
+  ⟨sep_safe_min0, sep_safe_min1⟩
+
+/-- each exclusion is needed: the witnesses' pairs are not `directSafe` and `required_space` does not match on their
+edges (the printed witnesses are `kf02b_witness`, `kf02c_witness`, `kf02f_witness`, `kf01_witness` above) -/
+theorem sep_exclusions_witnessed :
+    (TokenAdj.kf02b (.regex 3) (mkLit "in") && !(okPair (.regex 3) (mkLit "in")) && !(mustSpace (.regex 3) (mkLit "in"))) = true ∧
+    (TokenAdj.kf02c (.word 0 2) (mkLit "in") && !(okPair (.word 0 2) (mkLit "in")) && !(mustSpace (.word 0 2) (mkLit "in"))) = true ∧
+    (TokenAdj.kf02f .numDot (mkLit "in") && !(okPair .numDot (mkLit "in")) && !(mustSpace .numDot (mkLit "in"))) = true ∧
+    (kf01Pair .decInt (mkLit ".") && !(directSafe .decInt (mkLit "."))) = true ∧
+    sig "/re/" = .regex 3 ∧ sig "a\u0300" = .word 0 2 ∧ sig "1." = .numDot ∧ sig "in" = mkLit "in" ∧ sig "1" = .decInt := by
+  decide +kernel
+
+/-- T `minify_relexes_partial` (chunk-stream level; see `pretty_relexes_partial` in Props/C01 for the reading and for
+what is not proved).  For every tree that respects the slot typing, both `drop_semi` settings: token fragments with no
+chunk between them are `okPair`; token fragments with exactly one layout chunk between them satisfy every decided
+single-marker relation whose marker set contains the occurrence (`separated_pairs_safe_minify_partial`). -/
+theorem minify_relexes_partial (d : Bool) (k : String) (as : List (String × Val))
+    (hw : wfVal (if d then cxMin1 else cxMin0) (.node k as) = true) (cs : List Chunk)
+    (h : walkChunks (minifyCfg d) (.node k as) () = .ok (cs, ())) :
+    (∀ pre post f1 f2, cs = pre ++ .frag f1 :: .frag f2 :: post →
+      okPair (canon (sig f1.text)) (canon (sig f2.text)) = true) ∧
+    (∀ pre post f1 f2 mk hdl n, cs = pre ++ .frag f1 :: .layout mk hdl n :: .frag f2 :: post →
+      ∃ x, eraseSym x = Sym.m mk (isKind (minifyCfg d).hd.headerKinds n) ∧
+        ∀ markers ok, sepOK (if d then followMin1 else followMin0) markers ok = true → markers.testBit x = true →
+          ok (canon (sig f1.text)) (canon (sig f2.text)) = true) := by
+  cases d with
+  | false =>
+    obtain ⟨a, _, ha⟩ := minify0_stream_typed k as hw cs h
+    constructor
+    · intro pre post f1 f2 hcs
+      rw [hcs] at ha
+      exact directOK_spec followMin0 direct_safe_min0 _ _ (tcCode_sig_mem _) (tcCode_sig_mem _)
+        (ann_adjacent_frags pre post f1 f2 ha)
+    · intro pre post f1 f2 mk hdl n hcs
+      rw [hcs] at ha
+      obtain ⟨x, hx, h1, h2⟩ := ann_separated_frags pre post f1 f2 mk hdl n ha
+      exact ⟨x, hx, fun markers ok hok hm =>
+        sepOK_spec followMin0 markers ok hok _ _ (tcCode_sig_mem _) (tcCode_sig_mem _) x hm h1 h2⟩
+  | true =>
+    obtain ⟨a, _, ha⟩ := minify1_stream_typed k as hw cs h
+    constructor
+    · intro pre post f1 f2 hcs
+      rw [hcs] at ha
+      exact directOK_spec followMin1 direct_safe_min1 _ _ (tcCode_sig_mem _) (tcCode_sig_mem _)
+        (ann_adjacent_frags pre post f1 f2 ha)
+    · intro pre post f1 f2 mk hdl n hcs
+      rw [hcs] at ha
+      obtain ⟨x, hx, h1, h2⟩ := ann_separated_frags pre post f1 f2 mk hdl n ha
+      exact ⟨x, hx, fun markers ok hok hm =>
+        sepOK_spec followMin1 markers ok hok _ _ (tcCode_sig_mem _) (tcCode_sig_mem _) x hm h1 h2⟩
 
 end CalmVerif.Props.C02
